@@ -145,6 +145,9 @@ Inductive hop :=
 | HPrefetch (f : N) (i : nat) (ft : option fetch)          (* one readAndCache, as cacheWithReader issues it *)
 | HCache (l : list (N * nat * option fetch))               (* VerifiableReader.Cache() *)
 | HRead (f : N) (off len : Z) (fs : list fetch)            (* OpenFile(f).ReadAt(make([]byte,len), off) *)
+| HCacheWith (d' : digest) (l : list (N * nat * option fetch))
+      (* memory store: VerifiableReader.Cache(WithReader(sr')) where the TOC file served by sr' hashes to d':
+         metadata Clone re-parses the TOC from sr' and (C01-fix-3) refuses one with another digest *)
 | HProbe (f : N) (i : nat)                                 (* look at the cache entry of a chunk *)
 | HPass (f : N) (buf : Z) (fts : list (nat * fetch))       (* OpenFile(f).GetPassthroughFd(buf, workers), then the file's content *)
 | HAtom (o : op).                                          (* a sub-step scheduled by the harness *)
@@ -251,6 +254,12 @@ Definition open_layer (dec : bytes -> option toc) (stream : bytes) : option st :
   | Some T => Some (init T (H stream))
   | None => None
   end.
+
+(* metadata/memory Reader.Clone(sr') with C01-fix-3: the TOC file read from sr' is decoded again; a TOC whose digest
+   differs from the digest of the TOC this layer was opened with is refused. (The db store's Clone shares the parsed
+   TOC and reads no TOC from sr'.) The result is the chunk table the cloned reader works with. *)
+Definition clone_layer (dec : bytes -> option toc) (s : st) (stream' : bytes) : option toc :=
+  if N.eqb (H stream') (s_tocd s) then dec stream' else None.
 
 (* ---- composites ---- *)
 
@@ -501,6 +510,8 @@ Definition hstep (s : st) (h : hop) : st * hout :=
   | HPrefetch f i ft => let '(s1, r) := prefetch_chunk s f i ft in (s1, HO r)
   | HCache l => let '(s1, r) := cache_all s l OOk in (s1, HO r)
   | HRead f off len fs => let '(s1, r) := read_at s f off len fs in (s1, HR r)
+  | HCacheWith d' l =>
+      if N.eqb d' (s_tocd s) then let '(s1, r) := cache_all s l OOk in (s1, HO r) else (s, HO OErr)
   | HProbe f i => (s, HB (probe s f i))
   | HPass f buf fts => let '(s1, r) := pass_fd s f buf fts in (s1, HR r)
   | HAtom o => let '(s1, r) := step s o in (s1, HO r)
